@@ -232,6 +232,16 @@ def sample(ctx, budget=1.0, hint=None, broken=None):
         M = M.copy()
         if kind not in ('near-id',):
             M[0, 2] += r.uniform(-3, 3); M[1, 2] += r.uniform(-3, 3)
+        if r.random() < 0.15:
+            # the same kinds of maps written with whole numbers: an integer-typed array (what `np.array([[1, 0, 5], ...])` gives), a
+            # list of lists of ints, or single precision
+            Mi = {'rot': [[0, -1, 0], [1, 0, 0], [0, 0, 1]], 'refl': [[1, 0, 0], [0, -1, 0], [0, 0, 1]], 'uscale': [[2, 0, 0], [0, 2, 0], [0, 0, 1]],
+                  'nscale': [[3, 0, 0], [0, -2, 0], [0, 0, 1]], 'shear': [[1, 2, 0], [0, 1, 0], [0, 0, 1]]}.get(kind, [[1, 0, 0], [0, 1, 0], [0, 0, 1]])
+            Mi = [row[:] for row in Mi]
+            Mi[0][2], Mi[1][2] = r.randint(-7, 7), r.randint(-7, 7)
+            form = r.choice(['int-array', 'int-array', 'float32'])
+            M = np.array(Mi) if form == 'int-array' else np.array(Mi, dtype=np.float32)
+            kind = kind + '/' + form
         return kind, M
 
     for it in range(int(ctx.n(200, 2500) * budget)):
